@@ -1,9 +1,9 @@
 ------------------------------- MODULE MDATrace -------------------------------
 (***************************************************************************)
 (* code -> spec for C06: executions of the real MDAJacobi / MDAGaussSeidel *)
-(* / MDAChain with either as inner MDA (no acceleration, over-relaxation   *)
-(* factor w/2) on harness linear disciplines that log what they receive    *)
-(* and return at every execution.                                          *)
+(* / MDAChain with either as inner MDA / MDASequential of two of them (no  *)
+(* acceleration, over-relaxation factor w/2) on harness linear disciplines *)
+(* that log what they receive and return at every execution.               *)
 (* A trace is                                                              *)
 (*   [id, inst, cfg, events]                                               *)
 (*   events: [ev |-> "exec", d, inp, out]   one discipline execution: the  *)
@@ -45,7 +45,7 @@ TExec == /\ IsEv("exec")
          /\ UNCHANGED ended
          /\ Exec
          /\ LET d   == St.ds[pos + 1]
-                src == IF Inner(cfg) = "J" THEN bef ELSE y
+                src == IF St.inner = "J" THEN bef ELSE y
             IN  /\ Ev.d = d
                 /\ Ev.inp = Proj(src, ReadSeq(inst, d))
                 /\ Ev.out = Proj(y', CompSeq(inst, d))
